@@ -259,6 +259,15 @@ type implPage struct {
 	geom                [8]float64 // sheetW sheetH mL w mR mT h mB
 	lines               []c02.Placed
 	margin              []string
+	boxes               []decoBox // block boxes that keep a bottom padding / border on this page
+}
+
+// decoBox: a block box with bottom decoration (not removed by fragmentation) on a page.
+type decoBox struct {
+	firstTok     int     // first token inside the box on this page
+	lastTok      int     // last token inside the box on this page
+	borderBottom float64 // bottom edge of its border box
+	deco         float64 // its bottom padding + border
 }
 
 func pageName(s string) int {
@@ -294,6 +303,30 @@ func observe(pages []*bo.PageBox) []implPage {
 						ip.lines = append(ip.lines, c02.Placed{Tok: c02.TokID(s), Text: s, Page: ip.index, Y: float64(tb.PositionY)})
 					}
 				}
+			}
+		}
+		for _, d := range bo.DescendantsPlaceholders(p, true) {
+			bb, ok := d.(*bo.BlockBox)
+			if !ok {
+				continue
+			}
+			f := bb.Box()
+			if f.PaddingBottom.V()+f.BorderBottomWidth.V() <= 0 {
+				continue
+			}
+			first, last := 0, 0
+			for _, e := range bo.DescendantsPlaceholders(bb, true) {
+				if tb, ok := e.(*bo.TextBox); ok {
+					if id := c02.TokID(strings.TrimSpace(tb.TextS())); id != 0 {
+						if first == 0 {
+							first = id
+						}
+						last = id
+					}
+				}
+			}
+			if last != 0 {
+				ip.boxes = append(ip.boxes, decoBox{firstTok: first, lastTok: last, deco: float64(f.PaddingBottom.V() + f.BorderBottomWidth.V()), borderBottom: float64(f.BorderBoxY() + f.BorderHeight())})
 			}
 		}
 		out = append(out, ip)
@@ -443,7 +476,16 @@ func Run(tier string, seed uint64, modelPath, repo string, out *res.Result) erro
 		if rootBB != "auto" {
 			extra += "html{break-before:" + rootBB + "}"
 		}
-		doc := c02.GenClassF(sub, c02.GenOpts{Level: i % 4, NamedPages: i%3 != 0, Sides: i%2 == 0 || !ltr}, rs.css()+extra)
+		opts := c02.GenOpts{Level: i % 4, NamedPages: i%3 != 0, Sides: i%2 == 0 || !ltr}
+		if i%8 == 5 {
+			// structured case: a wrapper with bottom padding / border whose content ends within that
+			// decoration of the page bottom (one page geometry: only the base rule)
+			rs.rules = rs.rules[:1]
+			h := float64(60 + 20*sub.Intn(6))
+			rs.rules[0].decls[0] = decl{fmt.Sprintf("size:200px %vpx", h+20), []sx.X{d1("size-w", "px", 200, false), d1("size-h", "px", h+20, false)}}
+			opts = c02.GenOpts{WrapperBottom: true, PageH: h}
+		}
+		doc := c02.GenClassF(sub, opts, rs.css()+extra)
 		doc.Root.St.BB = rootBB
 		doc.LTR = ltr
 		if !ltr {
